@@ -28,7 +28,9 @@ pub trait RollingValidCmp<T: IsNone>: Vec1View<T> {
         T::Inner: Number,
         f64: Cast<U>,
     {
-        let window = min(self.len(), window);
+        // an empty input keeps the requested window: clamped to 0 it would trip the drivers'
+        // `window > 0` check (and `window - 1` below)
+        let window = if self.is_empty() { window } else { min(self.len(), window) };
         let mut min: Option<T::Inner> = None;
         let mut min_idx: Option<usize> = None;
         let mut n = 0;
@@ -107,7 +109,9 @@ pub trait RollingValidCmp<T: IsNone>: Vec1View<T> {
         T::Inner: Number,
         Option<T::Inner>: Cast<U>,
     {
-        let window = min(self.len(), window);
+        // an empty input keeps the requested window: clamped to 0 it would trip the drivers'
+        // `window > 0` check (and `window - 1` below)
+        let window = if self.is_empty() { window } else { min(self.len(), window) };
         let mut min: Option<T::Inner> = None;
         let mut min_idx: Option<usize> = None;
         let mut n = 0;
@@ -181,7 +185,9 @@ pub trait RollingValidCmp<T: IsNone>: Vec1View<T> {
         T::Inner: Number,
         f64: Cast<U>,
     {
-        let window = min(self.len(), window);
+        // an empty input keeps the requested window: clamped to 0 it would trip the drivers'
+        // `window > 0` check (and `window - 1` below)
+        let window = if self.is_empty() { window } else { min(self.len(), window) };
         let mut max: Option<T::Inner> = None;
         let mut max_idx: Option<usize> = None;
         let mut n = 0;
@@ -260,7 +266,9 @@ pub trait RollingValidCmp<T: IsNone>: Vec1View<T> {
         T::Inner: Number,
         Option<T::Inner>: Cast<U>,
     {
-        let window = min(self.len(), window);
+        // an empty input keeps the requested window: clamped to 0 it would trip the drivers'
+        // `window > 0` check (and `window - 1` below)
+        let window = if self.is_empty() { window } else { min(self.len(), window) };
         let mut max: Option<T::Inner> = None;
         let mut max_idx: Option<usize> = None;
         let mut n = 0;
@@ -338,7 +346,9 @@ pub trait RollingValidCmp<T: IsNone>: Vec1View<T> {
         T::Inner: Number,
         f64: Cast<U>,
     {
-        let window = min(self.len(), window);
+        // an empty input keeps the requested window: clamped to 0 it would trip the drivers'
+        // `window > 0` check (and `window - 1` below)
+        let window = if self.is_empty() { window } else { min(self.len(), window) };
         let min_periods = min_periods.unwrap_or(window / 2);
         let w_m1 = window - 1; // window minus one
         let mut n = 0usize; // keep the num of valid elements
